@@ -79,20 +79,51 @@ K("bl.patch_mode_table", ["C05", "C01"], "jxl-render", BL, BLM, "patch_mode_tabl
   "kReplace/kAdd/kMul(clamp), kBlendAbove/Below -> kBlend with swapped <=> Below, kMulAddAbove/Below -> kMulAdd with swapped <=> Below, on the "
   "alpha channel itself Above keeps the canvas alpha and Below takes the patch alpha; planes passed through unexchanged")
 
-# ---- blend.rs: kernels (bounded geometry, complete over sample values) ----------------------------------------------
-_KB = "bounded:base and new grids up to 2x2 samples (row stride 2), all offsets / rectangle sizes 0..2 that fit; complete over all finite f32 samples"
-_KTXT = ("requires the blended rectangle inside both grids, alpha planes with the geometry of their sample grids, finite samples; ensures for "
-         "every position of the base buffer: inside the rectangle the sample == spec_blend_pixel(%s) BIT-EXACTLY (NaNs identified), outside "
-         "(incl. stride padding) unchanged; no panic / out-of-bounds; plus the standard's formula at the exact points (alpha 0 / 1, clamp of "
-         "out-of-range alpha) independent of operation order")
-for _h, _what in [("replace", "kReplace: new_sample; also the no-alpha form of kBlend"),
-                  ("add", "kAdd: old + new; also the no-alpha form of kMulAdd"),
-                  ("skip", "keep old_sample"),
-                  ("mul", "kMul: old * new, new clamped to [0,1] if clamp"),
-                  ("mix_alpha", "alpha channel under kBlend: lower + upper*(1-lower), upper clamped if clamp, layers exchanged if swapped"),
-                  ("muladd", "kMulAdd: lower + alpha_upper*upper, alpha clamped if clamp, layers exchanged if swapped, absent canvas alpha = 0"),
-                  ("blend_premultiplied", "kBlend premultiplied: upper + lower*(1-alpha_upper), clamp, swapped, absent canvas alpha = 0"),
-                  ("blend_straight", "kBlend straight alpha: (a*upper + a_low*lower*(1-a)) * (1/alpha_out or 0), alpha_out = 1-(1-a)(1-a_low) "
-                                     "[operation order of the reference decoder, forced by rounding], clamp, swapped, absent canvas alpha = 0")]:
-    K("bl.kernel_" + _h, ["C05", "C01", "C02"], "jxl-render", BL, BLM, "kernel_%s_contract" % _h, _KB, ["blend_single"], _KTXT % _what,
-      timeout=600)
+# ---- blend.rs: kernels ----------------------------------------------------------------------------------------------
+_KREQ = ("requires the blended rectangle inside both grids, alpha planes with the geometry of their sample grids (what blend()/patch() "
+         "establish by intersecting regions), finite samples; ")
+_KB_ALL = ("bounded:base and new grids up to 2x2 samples (row stride 2), ALL offsets / rectangle sizes 0..2 that fit, all flags; "
+           "complete over all finite f32 samples")
+for _h, _what in [("replace", "kReplace: sample = new_sample"),
+                  ("blend_no_alpha", "kBlend on an image without alpha (no new alpha plane, any flags) behaves as kReplace"),
+                  ("skip", "kept channel (alpha under kMulAdd / kMulAddAbove): sample = old_sample")]:
+    K("bl.kernel_" + _h, ["C05", "C01", "C02"], "jxl-render", BL, BLM, "kernel_%s_contract" % _h, _KB_ALL, ["blend_single"],
+      _KREQ + "ensures for every position of the base buffer: inside the rectangle the sample == spec_blend_pixel (%s) bit for bit, outside "
+      "(incl. stride padding) unchanged; no panic / out-of-bounds access" % _what, timeout=600)
+K("bl.kernel_add_all_geometries", ["C05", "C01", "C02"], "jxl-render", BL, BLM, "kernel_add_all_geometries", _KB_ALL, ["blend_single"],
+  _KREQ + "ensures inside the rectangle sample == old_sample + new_sample bit for bit (NaNs identified), outside unchanged",
+  tier="thorough", timeout=1200)
+_KB_Q = ("bounded:2 concrete geometries on 2x2 grids (one sample with offsets crossed in both axes; empty rectangle on a narrow grid), every "
+         "buffer position checked; complete over all flags, canvas-alpha presence and all finite f32 samples")
+_KB_W = ("bounded:3 concrete geometries on 2x2 grids (column of two from a narrow grid, row of two from a flat grid, empty rectangle), every "
+         "buffer position checked; complete over all flags, canvas-alpha presence and all finite f32 samples")
+_KFALL = (" [FALL-BACK: a bit-exact comparison with spec_blend_pixel does not close in CBMC for multiplications / divisions (two float circuits "
+          "to be proved equivalent; > 20 min), nor does symbolic geometry with float arithmetic; values are pinned at the points where "
+          "binary32 evaluation is exact and order-independent]")
+for _h, _what, _fb in [
+        ("add", "kAdd: sample == old + new BIT-EXACTLY", ""),
+        ("muladd_no_alpha", "kMulAdd on an image without alpha (any flags): sample == old + new BIT-EXACTLY", ""),
+        ("mul", "kMul: factor 1 keeps, factor 0 gives 0, clamp: factor >= 1 acts as 1 and <= 0 as 0, no clamp: factor -2 doubles and negates", _KFALL),
+        ("mix_alpha", "alpha channel under kBlend, a = lower + upper(1-lower): upper 0 keeps lower, lower 0 gives (clamped) upper, lower 1 stays 1; "
+                      "layers exchanged iff swapped", _KFALL),
+        ("muladd", "kMulAdd, lower + alpha_upper*upper: (clamped) alpha 0 keeps lower, alpha 1 adds bit-exactly, clamp limits alpha > 1 to 1; layers and "
+                   "the alpha plane exchanged iff swapped; absent canvas alpha = 0", _KFALL),
+        ("blend_premultiplied", "premultiplied kBlend, upper + lower(1-alpha_upper): alpha 1 gives upper, alpha 0 gives upper+lower bit-exactly, clamp "
+                                "limits alpha > 1 to 1; exchanged iff swapped", _KFALL),
+        ("blend_straight", "straight-alpha kBlend (|values| <= 2^40 so that no intermediate overflows into NaN): alpha 1 gives upper, alpha 0 over an "
+                           "opaque lower layer gives lower, both transparent gives 0, clamp limits alpha > 1 to 1; exchanged iff swapped", _KFALL)]:
+    K("bl.kernel_" + _h, ["C05", "C01", "C02"], "jxl-render", BL, BLM, "kernel_%s_contract" % _h, _KB_Q, ["blend_single"],
+      _KREQ + "ensures outside the rectangle every sample of the base buffer is unchanged (bit-exact); inside: " + _what + _fb, timeout=900)
+    K("bl.kernel_%s_wide" % _h, ["C05", "C01", "C02"], "jxl-render", BL, BLM, "kernel_%s_wide" % _h, _KB_W, ["blend_single"],
+      _KREQ + "same contract as bl.kernel_%s on rectangles of two samples" % _h, tier="thorough", timeout=1200)
+K("bl.spec_clamp", ["C05"], "jxl-render", BL, BLM, "spec_clamp01_is_clamp", "complete", ["f32::clamp"],
+  "the clamp used by the kernels and by spec_blend_pixel is the standard's case distinction: < 0 -> 0, > 1 -> 1, otherwise unchanged, over all f32")
+
+# ---- toc.rs: section order -----------------------------------------------------------------------------------------
+K("toc.section_order", ["C14", "C01"], "jxl-frame", TOC, TOCM, "section_order_contract",
+  "bounded:num_lf_groups <= 2, num_groups <= 3, num_passes <= 2 (table of at most 10 sections), every permutation of the table",
+  ["Toc::group_index_bitstream_order", "Toc::is_single_entry", "TocGroupKind::cmp"],
+  "requires the Toc invariant established by Toc::parse (table length 1 or 1+num_lf_groups+1+num_groups*num_passes, permutation empty or a "
+  "permutation of the table) and a section the callers ask for (All iff single section; indices in range); ensures result == "
+  "permutation[standard's section index] (LfGlobal, LfGroups in raster order, HfGlobal, PassGroups pass-major), result < table length, "
+  "distinct sections -> distinct positions, unpermuted order == Ord of TocGroupKind", timeout=600)
